@@ -62,6 +62,11 @@ class Prop(PropBase):
         'LOAD_GLOBAL/STORE_GLOBAL against a dict subclass, PEP 709 inlined comprehensions, PEP 572 '
         'binding rules) is MODELLED in Model/PyScope.v and validated only by the correspondence run; it is '
         'not derived from CPython',
+        'Tie B (tools/py2coq_c14.py -> Gen/GenC14.v, proved equal to the model in Proofs/GenC14Proofs.v): '
+        'Context.pystring_globals_update, the namespace of Context.get_eval_string, class '
+        '_ChainMapPretendDict (bases / overridden methods / __init__), pyimport.run_step, and the exec '
+        'namespace + save of pypyr.steps.py are re-translated from the current source on every run; the '
+        'translator and its reading of dict.update / dict.copy / item assignment are trusted',
         'the theorems are parameterised by pypyr\'s own part: per evaluation a namespace object {dict '
         'part: __builtins__; maps: [throw-away scratch; context; imports]} (repair e6daded), exec '
         'globals = shallow copy of context + __builtins__ + save',
